@@ -137,8 +137,10 @@ mod verif_c13_loss {
             j += 1;
         }
         assert!(count == nlost, "C13.loss.detect.sup.reported_numbers_are_distinct_records");
-        kani::cover!(nlost == N, "C13.loss.detect.reach_all_lost");
-        kani::cover!(nlost == 0 && states[0] == State::Inflight, "C13.loss.detect.reach_none_lost");
+        if !check_later_acked {
+            kani::cover!(nlost == N, "C13.loss.detect.reach_all_lost");
+            kani::cover!(nlost == 0 && states[0] == State::Inflight, "C13.loss.detect.reach_none_lost");
+        }
         core::mem::forget(sp);
         core::mem::forget(algo);
     }
